@@ -552,8 +552,13 @@ impl<'k> Gen<'k> {
                 (SigBeh::Table(t), mag)
             }
             2 => {
-                let start = self.rng.range(0, 20);
-                let step = self.rng.range(1, 5);
+                // (with variables named like outputs around, counters that move in step with a
+                // loop counter: small start, step 1)
+                let (start, step) = if k.shadow_outputs && self.rng.chance(1, 2) {
+                    (self.rng.range(-3, 3), 1)
+                } else {
+                    (self.rng.range(0, 20), self.rng.range(1, 5))
+                };
                 (SigBeh::Counter(start, step), 24)
             }
             3 => {
@@ -613,6 +618,7 @@ impl<'k> Gen<'k> {
             layout: entries,
             seed,
             overrides_write,
+            in_place: false,
             faults: vec![],
         });
     }
@@ -1622,5 +1628,6 @@ pub fn gen_case(rng: Rng, knobs: &Knobs) -> Case {
         source_override: None,
         dig_file: None,
         thread_seed: None,
+        prelude: vec![],
     }
 }
